@@ -170,6 +170,7 @@ func c15Ops() []c15Op {
 		}},
 		{Name: "c.Length 2<->3", Upd: func(x *c15World) { x.c.Length = 5 - x.c.Length }},
 		{Name: "c.Allow ^= Digits", Upd: func(x *c15World) { x.c.Allow ^= spg.Digits }},
+		{Name: "c.Require ^= Symbols", Upd: func(x *c15World) { x.c.Require ^= spg.Symbols }},
 		{Name: "c.ExcludeChars \"\"<->\"a\"", Upd: func(x *c15World) {
 			if x.c.ExcludeChars == "" {
 				x.c.ExcludeChars = "a"
@@ -192,11 +193,16 @@ func c15Ops() []c15Op {
 			}
 		}},
 		{Name: "w.Length 1<->2", Upd: func(x *c15World) { x.w.Length = 3 - x.w.Length }},
-		{Name: "w.Capitalize none<->all", Upd: func(x *c15World) {
-			if x.w.Capitalize == spg.CSAll {
-				x.w.Capitalize = spg.CSNone
-			} else {
+		{Name: "w.Capitalize none->all->random->one->none", Upd: func(x *c15World) {
+			switch x.w.Capitalize {
+			case spg.CSNone:
 				x.w.Capitalize = spg.CSAll
+			case spg.CSAll:
+				x.w.Capitalize = spg.CSRandom
+			case spg.CSRandom:
+				x.w.Capitalize = spg.CSOne
+			default:
+				x.w.Capitalize = spg.CSNone
 			}
 		}},
 		{Name: "w.SeparatorFunc nil<->sf", Upd: func(x *c15World) {
@@ -587,7 +593,7 @@ func init() {
 		ID:    "C15",
 		Level: "model_checking",
 		Build: "inst",
-		Rule: "every sequence of length <=4 (thorough <=5) over 22 operations - 13 queries (three of them on a random source that fails mid-call, the panic recovered by the caller) (Generate/Entropy/Alphabet/SuccessProbability on a character recipe, Generate/Entropy on a wordlist recipe, the preset SFDigits1 and a constructed separator function, each with a fixed scripted random stream) and 9 caller-side updates (lengths, class flags, exclude string, in-place edit of the RequireSets slice, nil/slice, capitalisation, separator function and character) - run on live values; after every query: caller-visible state deep-equal to the snapshot before it, result and bytes consumed equal to the same call on freshly built values with the same public fields, and consistent with the reference model evaluated on the current fields; " +
+		Rule: "every sequence of length <=4 (thorough <=5) over 23 operations - 13 queries (three of them on a random source that fails mid-call, the panic recovered by the caller) (Generate/Entropy/Alphabet/SuccessProbability on a character recipe, Generate/Entropy on a wordlist recipe, the preset SFDigits1 and a constructed separator function, each with a fixed scripted random stream) and 9 caller-side updates (lengths, class flags, exclude string, in-place edit of the RequireSets slice, nil/slice, capitalisation, separator function and character) - run on live values; after every query: caller-visible state deep-equal to the snapshot before it, result and bytes consumed equal to the same call on freshly built values with the same public fields, and consistent with the reference model evaluated on the current fields; " +
 			"part B: all ordered pairs of ~70 character recipes and 96 wordlist recipes that differ only in how the same characters are split over fields/strings or that share a word list object (queries on A, then B checked against the model); states = sequences; non-trivial = distinct (query, result) pairs",
 		Assume:    []string{"map ranges take the canonical order in the instrumented build, so a freshly built word list has the same word order", "no state deduplication: closures hide state that cannot be hashed soundly"},
 		Run:       c15Run,
